@@ -17,6 +17,17 @@ static void c20_gen(Tape &t, Case &c) {
   gen_history(t, h, 10, true, 3);
   // sprinkle failing calls, file I/O on missing / valid paths and verbose solves into the history
   for (auto &o : h.ops) {
+    if (o.k == "solve" && t.chance(1, 4)) {
+      // a finite objective limit makes the simplex stop (and talk) on paths no other history reaches; the limit is a
+      // small number either side of zero, which the objective of these LPs crosses in a fair share of the solves
+      SolveCfg cfg = SolveCfg::from_op(o);
+      cfg.objlim_kind = 1 + (int)t.below(2);
+      cfg.objlim = Q((long)t.below(41) - 20) * (t.coin() ? Q(1) : Q(1, 3));
+      cfg.objlim.canonicalize();
+      Op so = cfg.op();
+      so.k = "solve";
+      c.ops.push_back(so);
+    } else
     c.ops.push_back(o);
     if (o.k == "prob" || o.k == "col" || o.k == "row" || o.k == "route") continue;
     if (t.chance(1, 3)) c.ops.push_back(Op("bad").I(t.below((uint32_t)c07_nfuncs())).I(t.below(6)).I(t.below(3)));
@@ -104,6 +115,8 @@ static void c20_run(const Case &c, Result &r) {
       int disp = 0;
       mpq_QSget_param(p, QS_PARAM_SIMPLEX_DISPLAY, &disp);
       what += "/display" + std::to_string(disp);
+      if (cfg.objlim_kind) r.label("solve:objective-limit");
+      if (s.status == QS_LP_OBJ_LIMIT) r.label("status:objective-limit-reached");
       if (s.rval) failing_call_seen = true;
       r.label("call:" + what);
     } else if (o.k == "probe") {
